@@ -5,6 +5,7 @@ import (
 	"fmt"
 	"io"
 	"math/big"
+	mrand "math/rand"
 	"sync"
 )
 
@@ -151,7 +152,8 @@ func GenerateRSAKey(rnd io.Reader, bits int) (*RSAKey, error) {
 	}
 }
 
-// PooledRSAKey returns the pool's RSA key of the given size and slot, generating it from rnd on first use.
+// PooledRSAKey returns the pool's RSA key of the given size and slot, generating it on first use.
+// Pool keys are the same in every process and for every seed (they depend on bits and slot only).
 func PooledRSAKey(rnd io.Reader, bits, slot int) (*RSAKey, error) {
 	rsaPoolMu.Lock()
 	defer rsaPoolMu.Unlock()
@@ -159,7 +161,12 @@ func PooledRSAKey(rnd io.Reader, bits, slot int) (*RSAKey, error) {
 	if k, ok := rsaPool[id]; ok {
 		return k, nil
 	}
-	k, err := GenerateRSAKey(rnd, bits)
+	// The pool key is generated from a fixed stream that depends only on (bits,
+	// slot), not from rnd: whether the key already exists must not change how
+	// many bytes the caller's stream has been advanced, otherwise objects built
+	// from one seed would differ between the first and later uses of a slot.
+	_ = rnd
+	k, err := GenerateRSAKey(mrand.New(mrand.NewSource(int64(bits)*1000+int64(slot)+0x5ca1ab1e)), bits)
 	if err != nil {
 		return nil, err
 	}
